@@ -540,6 +540,33 @@ def _degenerate_bs(res, viol):
                     viol("degenerate Black-Scholes branch is not the discounted intrinsic value", got=got.tolist(), expected=exp.tolist(), **rep)
 
 
+def _guard_cases(res, viol):
+    """ExponentialOfLevyModel.__init__ must refuse parameters with E[exp(L_1)] infinite (kappa(1) not finite): ValueError expected"""
+    from rpylib.model import utils as U_
+    from rpylib.model.levymodel.levymodel import ModelType
+    outside = [("CGMY", dict(c=1.0, g=15.0, m=0.9, y=0.5)), ("CGMY", dict(c=1.0, g=15.0, m=0.5, y=1.5)),
+               ("HEM", dict(sigma=0.1, p=0.6, eta1=0.9, eta2=25.0, intensity=3.0)), ("HEM", dict(sigma=0.1, p=0.6, eta1=0.5, eta2=25.0, intensity=3.0)),
+               ("VG", dict(sigma=1.2, nu=2.0, theta=0.5))]
+    inside = [("CGMY", dict(c=1.0, g=15.0, m=1.5, y=0.5)), ("HEM", dict(sigma=0.1, p=0.6, eta1=1.5, eta2=25.0, intensity=3.0)),
+              ("VG", dict(sigma=0.2, nu=0.1, theta=-0.1))]
+    for name, kw in outside + inside:
+        expect_raise = (name, kw) in outside
+        res.count(("guard", name, tuple(kw.values())), kind="constructor guard E[exp(L_1)] finite")
+        try:
+            m = U_.helper_model(ModelType[name])(spot=100.0, r=0.02, d=0.0, **kw)
+            got = None
+        except ValueError:
+            got = "ValueError"
+        except Exception as e:  # noqa
+            got = type(e).__name__
+        if expect_raise and got != "ValueError":
+            viol(f"exponential model with E[exp(L_1)] infinite: expected ValueError, got {got or 'a model'}", kind="guard", model=name, params=kw)
+        if not expect_raise and got is not None:
+            viol(f"exponential model with finite E[exp(L_1)] refused: {got}", kind="guard", model=name, params=kw)
+        if got is None and abs(float(m.mean(1.0)) - math.exp(0.02)) > 1e-9:
+            viol("constructed exponential model does not have the martingale forward", kind="guard", model=name, params=kw, mean=float(m.mean(1.0)))
+
+
 def correspond(res):
     rng = random.Random(res.seed)
     quick = res.tier == "quick"
@@ -554,6 +581,7 @@ def correspond(res):
         bs = _bs_cases(res, rng, 6 if quick else 40)
         sums = _sum_cases(res, rng, 4 if quick else 20) + _density_cases(res, rng, 5 if quick else 20)
         _degenerate_bs(res, viol)
+        _guard_cases(res, viol)
         _differential(res, rng, 14 if quick else 150, 6 if quick else 60, viol)
     _run_lemmas(res, "cases_coefficients", coef + simp)
     _run_lemmas(res, "cases_bs", bs)
